@@ -90,6 +90,9 @@ pub enum Ty {
     /// after substitution (value generation only): a pointer to a value of the closed type
     GcTo(Box<Ty>, bool),
     WeakTo(Box<Ty>),
+    /// `&'static T` with a closed `'static` referent (`T` need not be `Collect`): a legal reference
+    /// field, `Collect`, never traced
+    RefStatic(Box<Ty>),
     /// `DropTok`: a `'static` payload without `Collect` impl that records its own destruction
     Tok,
 }
@@ -303,6 +306,7 @@ impl Gen {
                     if depth < 3 { 26 } else { 0 },
                     if adt_depth < 2 && depth < 3 { 10 } else { 0 },
                     if scope.allow_self && depth == 0 { 10 } else { 0 },
+                    7,
                 ];
                 match self.rng.weighted(&w) {
                     0 => self.gen_leaf(),
@@ -311,6 +315,7 @@ impl Gen {
                     3 => Ty::Param(params[self.rng.below(params.len())]),
                     4 => self.gen_con(scope, want, depth, adt_depth),
                     6 => self.gen_self_link(),
+                    7 => self.gen_ref_static(),
                     _ => {
                         let idx = self.gen_decl(adt_depth + 1, false);
                         let args = self.gen_args(idx, scope, depth + 1, adt_depth + 1);
@@ -327,9 +332,11 @@ impl Gen {
                     if params.is_empty() { 0 } else { 18 },
                     if depth < 2 { 15 } else { 0 },
                     if adt_depth < 2 && depth < 2 { 6 } else { 0 },
+                    8,
                 ];
                 match self.rng.weighted(&w) {
                     0 => self.gen_leaf(),
+                    5 => self.gen_ref_static(),
                     1 => Ty::NoImpl,
                     2 => Ty::Param(params[self.rng.below(params.len())]),
                     3 => self.gen_con(scope, want, depth, adt_depth),
@@ -341,6 +348,19 @@ impl Gen {
                 }
             }
         }
+    }
+
+    /// `&'static T`: the only references that are `Collect` (`T: ?Sized + 'static`, not necessarily
+    /// `Collect`).
+    fn gen_ref_static(&mut self) -> Ty {
+        let inner = match self.rng.below(5) {
+            0 => Ty::Leaf(Leaf::U8),
+            1 => Ty::Leaf(Leaf::Str),
+            2 => Ty::Leaf(Leaf::I32),
+            3 => Ty::Con(Con::Vec, vec![Ty::Leaf(Leaf::U8)]),
+            _ => Ty::NoImpl,
+        };
+        Ty::RefStatic(Box::new(inner))
     }
 
     /// A field type spelled with `Self` behind a pointer, in a form that has an "empty" value so
@@ -561,6 +581,7 @@ impl Gen {
             Ty::GcTo(t, true) => format!("Gc<'gc, RefLock<{}>>", self.rust_ty(t, in_decl)),
             Ty::WeakTo(t) => format!("GcWeak<'gc, {}>", self.rust_ty(t, in_decl)),
             Ty::Tok => "DropTok".into(),
+            Ty::RefStatic(t) => format!("&'static {}", self.rust_ty(t, in_decl)),
             Ty::Con(c, args) => {
                 let a: Vec<String> = args.iter().map(|x| self.rust_ty(x, in_decl)).collect();
                 match c {
@@ -688,6 +709,8 @@ impl Gen {
     // ---------------------------------------------------------------- printing: model description
     fn desc_ty(&self, ty: &Ty) -> String {
         match ty {
+            Ty::Leaf(Leaf::StaticStr) => "(R s L)".into(),
+            Ty::RefStatic(t) => format!("(R s {})", self.desc_ty(t)),
             Ty::Leaf(_) => "L".into(),
             Ty::Gc => "G".into(),
             Ty::Weak => "W".into(),
@@ -860,6 +883,11 @@ impl Gen {
     /// `budget`: how many further levels of `Self` pointees may be allocated.
     fn gen_val(&mut self, ty: &Ty, force_variant: Option<usize>, top: Option<&mut Vec<(bool, usize)>>, ctx: u8, budget: usize) -> (String, String, usize, usize) {
         match ty {
+            Ty::Leaf(Leaf::StaticStr) => (self.leaf_val(Leaf::StaticStr), "(o)".into(), 0, 0),
+            Ty::RefStatic(t) => {
+                let (e, _, _, _) = self.gen_val(t, None, None, ctx, budget);
+                (format!("&*Box::leak(Box::new({}))", e), "(o)".into(), 0, 0)
+            }
             Ty::Leaf(l) => (self.leaf_val(*l), "l".into(), 0, 0),
             Ty::Gc => {
                 let id = self.fresh();
@@ -1035,6 +1063,7 @@ impl Gen {
     // ---------------------------------------------------------------- statistics
     fn record_ty_stats(&mut self, ty: &Ty, depth: usize) {
         let key = match ty {
+            Ty::Leaf(Leaf::StaticStr) => "tynode.ref_static".to_string(),
             Ty::Leaf(_) => "tynode.leaf".to_string(),
             Ty::Gc => "tynode.gc".into(),
             Ty::Weak => "tynode.gcweak".into(),
@@ -1045,6 +1074,7 @@ impl Gen {
             Ty::WeakSelf => "tynode.gcweak_self".into(),
             Ty::GcTo(..) | Ty::WeakTo(_) => "tynode.closed_self_ptr".into(),
             Ty::Tok => "tynode.drop_token".into(),
+            Ty::RefStatic(_) => "tynode.ref_static".into(),
             Ty::Con(c, _) => format!("con.{:?}", c).split('(').next().unwrap().to_string(),
             Ty::Adt(..) => "tynode.nested_adt".into(),
         };
